@@ -1159,6 +1159,18 @@ fn do_act(act: &Act_, ctx: &mut Ctx<'_, '_>, fr: &mut Frame) {
             let v = take(fr, *h);
             drop(v);
         }
+        Act_::PDropH(h) => {
+            // the same drop, performed by the unwinding of a panic that is caught right here
+            // (std::thread::panicking() is true while the value's Drop impls run); resume_unwind does not call the panic hook
+            let v = take(fr, *h);
+            if let Some(v) = v {
+                let r = std::panic::catch_unwind(std::panic::AssertUnwindSafe(move || {
+                    let _held = v;
+                    std::panic::resume_unwind(Box::new(0u8));
+                }));
+                drop(r);
+            }
+        }
         Act_::SlabAdd(h, a, n) => match ctx {
             Ctx::Meth(cx, st) => {
                 if ACTORS.with(|s| s.borrow().contains(a)) {
